@@ -385,10 +385,18 @@ func (c *Ctx) idFromRequest(v ssa.Value, depth int) (bool, string) {
 	var lv []ssa.Value
 	leaves(v, map[ssa.Value]bool{}, &lv)
 	if len(lv) > 1 || (len(lv) == 1 && lv[0] != v) {
+		some := false
 		for _, l := range lv {
+			if isNilConst(l) {
+				continue // no request to echo (nil request pointer): id null, as for a zero request
+			}
 			if ok, _ := c.idFromRequest(l, depth+1); !ok {
 				return false, "one origin of the id member is not the request's id"
 			}
+			some = true
+		}
+		if !some {
+			return false, "the id member is never taken from the request"
 		}
 		return true, "id read from the request"
 	}
@@ -1333,19 +1341,14 @@ func (c *Ctx) idNilTestFrame(v ssa.Value) (isTest, nonNilWhenTrue bool) {
 	} else {
 		return false, false
 	}
-	var f *types.Var
-	switch x := other.(type) {
-	case *ssa.Field:
-		f = fieldOfField(x)
-	case *ssa.UnOp:
-		if fa, ok := x.X.(*ssa.FieldAddr); ok && x.Op == token.MUL {
-			f = fieldOfAddr(fa)
-		}
+	frameID := (*types.Var)(nil)
+	if c.R.TFrame != nil {
+		frameID = respFieldByTag(c.R.TFrame, "id")
 	}
-	if f == nil {
-		return false, false
+	isID := func(a apath) bool {
+		return (c.R.FReqID != nil && a.through(c.R.FReqID)) || (frameID != nil && a.through(frameID))
 	}
-	if f == c.R.FReqID || (c.R.TFrame != nil && f == respFieldByTag(c.R.TFrame, "id")) {
+	if c.allOrigins(other, isID) {
 		return true, bo.Op == token.NEQ
 	}
 	return false, false
